@@ -347,7 +347,21 @@ func c06Run(c c06Case) (fail *vlib.Failure, rs c06Stats) {
 				pageBefore = append([]byte(nil), (*[4096]byte)(unsafe.Pointer(virt))[:]...)
 				srcBefore = append([]byte(nil), m.frameBytes(shared[al.shared])...)
 			}
+			if isAlias {
+				// While the handler runs the page shows whatever frame its entry refers to: when
+				// the handler reaches for its temporary mapping (to make the copy), the alias
+				// is pointed at the frame the MMU would translate the page to at that moment.
+				m.onTemp = func() {
+					if es, _ := m.hwEntries(m.cr3, virt); len(es) == 4 && es[3]&1 != 0 && m.inArena(es[3]&vmFrameMask) {
+						m.realias(virt, mm.Frame((es[3]&vmFrameMask)>>12))
+					}
+				}
+			}
 			pc := vlib.CatchFault(func() { pageFaultHandler(&regs) })
+			m.onTemp = nil
+			if isAlias {
+				m.realias(virt, shared[al.shared])
+			}
 			for _, s := range restore {
 				*(*uintptr)(unsafe.Pointer(s.p)) = s.v
 			}
